@@ -988,6 +988,12 @@ def legs(tier):
     out.append(Leg('resample_N2', fn_resample, r2, chunk=1, exhaustive=not quick, supplementary=quick,
                    bound='map-less CliffordGate(0,1) applied twice: coins of the first call fixed, whole pair-coin tree of the second call (+%d coins) for %s' % (
                        2 if quick else 4, '1 of the 16 sign strings per direction (capped in quick)' if quick else 'all 16 sign strings')))
+    if quick:
+        import os as _os
+        sd = int(_os.environ.get('VERIF_SEED', '0') or 0)
+        ks = [1 + (17 * sd + 5) % 63, 1 + (17 * sd + 40) % 63]
+        out.append(Leg('uniform_N3_subtrees', fn_n3, [[list(bits(k, 6)), 2] for k in ks], chunk=1, exhaustive=False, supplementary=True, timeout=3000, probe=0,
+                       bound='random_clifford(3), symplectic part: 2 of the 63 subtrees below the first draw g1 (VERIF_SEED rotates which): every leaf a valid table, 23040 distinct tables per subtree equally often'))
     if not quick:
         n3 = [[[0, 0, 0, 0, 0, 0], 2]] + [[list(bits(k, 6)), 2] for k in range(1, 64)]
         out.append(Leg('uniform_N3_tables', fn_n3, n3, chunk=1, src_states=dom.SP_ORDER[3], timeout=3000,
